@@ -344,7 +344,7 @@ func dests(v ssa.Value) string {
 			case *ssa.Store:
 				if x.Val == v {
 					if fa, ok := x.Addr.(*ssa.FieldAddr); ok {
-						set[via+"."+core.FieldOf(fa).Name()] = true
+						set[via+"."+core.FieldName(core.FieldOf(fa))] = true
 					}
 				}
 			case *ssa.Call:
@@ -537,7 +537,7 @@ func (m *wireModel) RSeqs(f *ssa.Function) [][]string {
 		case call.Call.StaticCallee() == nil && !call.Call.IsInvoke():
 			// dynamic call through a field: sr.discard(n)
 			if fld, _ := core.LoadedField(call.Call.Value); fld != nil && len(call.Call.Args) == 1 {
-				out = []string{fld.Name() + "(" + core.Sym(call.Call.Args[0]) + ")"}
+				out = []string{core.FieldName(fld) + "(" + core.Sym(call.Call.Args[0]) + ")"}
 			}
 		case call.Call.IsInvoke() && call.Call.Method.Name() == "Seek":
 			out = []string{"seek(" + core.Sym(call.Call.Args[0]) + ")"}
